@@ -151,6 +151,47 @@ NEEDS4 = {
 }
 
 
+NEEDS5 = {
+    'C01/1': ('Index/IndexMut: expect() became debug_assert!(is_some) + unwrap_unchecked', 'release build + indexing with an absent key: no panic, undefined behaviour'),
+    'C01/2': ('Map::get fast path for N == 1 compares slot 0 without looking at len', 'capacity 1 + fill, empty (remove/clear/drain/retain), then get/index with the old key'),
+    'C02/1': ('Drop for Map walks pairs[..len] as a pointer range (start != end)', 'zero-sized pair type with drop glue: no element is ever destroyed'),
+    'C02/2': ('Drain::last override peeks the last slot with assume_init_read without advancing', 'drain().last() on droppable payloads: the returned pair is destroyed again by Drain::drop'),
+    'C03/1': ('insert_ii appends through pairs.get_mut(i) and ignores the None case', 'release build + full container + new key: the pair is dropped silently, the reported index is N'),
+    'C03/2': ('Extend<T> for Set asserts len() < N before every insert', 'a full set extended with elements it already holds: panics instead of being a no-op'),
+    'C04/1': ('Drop for Map through a scope guard whose cursor advances after item_drop', 'an element whose Drop panics while the map is dropped: that element is destroyed twice'),
+    'C04/2': ('&Set - &Set appends through a helper that bumps len before the clone is written', 'T::clone panics in `-`: the partially built result destroys an uninitialised slot'),
+    'C05/1': ('OccupiedEntry::remove_entry hand-written swap-remove that never lowers len in the general branch', 'entry(k).remove_entry() on a key that is not in the last slot: the last pair is live twice'),
+    'C05/2': ('Set::remove closes the gap with slot len instead of len - 1', 'removing a non-last element: a dead slot is copied into the hole, the real last element is lost'),
+    'C06/1': ('Debug for IntoIter collects the pending pairs into a Vec (extern crate alloc)', 'formatting a non-empty by-value iterator: one allocator call'),
+    'C06/2': ('&Set - &Set builds large results in a Box in debug builds', 'the - operator on a set type larger than 4 KiB in an unoptimised build'),
+    'C07/1': ('Map::remove_entry (behind Set::take) pops the last pair before it searches', 'an element == that panics during the scan: the set silently loses its last element'),
+    'C07/2': ('Map::get_key_value (behind Set::get) compares size_of_val before ==', 'lookup by an unsized borrowed form whose == does not preserve byte length (Path)'),
+    'C08/1': ('the - operator inserts inside debug_assert!', 'release build: &a - &b is always empty'),
+    'C08/2': ('is_superset = M <= N && other.is_subset(self)', 'argument of strictly larger capacity that is still a subset'),
+    'C09/1': ('IterMut as a raw (ptr, end) cursor with byte-distance len', 'zero-sized (K, V): iter_mut/values_mut report length 0 and visit nothing'),
+    'C09/2': ('Iter as slice + position; Clone::clone restarts at position 0', 'advance, clone, use the clone: consumed items come out again, len too large'),
+    'C10/1': ('Drain::last override reads the final slot without removing it from the range', 'drain().last() on payloads with observable Drop: double drop'),
+    'C10/2': ('IntoKeys/IntoValues::last return the last live slot (the FIRST item of the back-to-front walk)', 'at least two entries left, last() compared with a next() walk'),
+    'C11/1': ('OccupiedEntry::remove_entry lowers len first; the tail test uses the new len', 'removing the pair in the second-to-last slot through the entry API: gap not closed, double drop'),
+    'C11/2': ('Entry::and_modify runs the closure on a ptr::read scratch copy and writes it back', 'the closure panics on an occupied entry: the value is dropped twice, earlier writes lost'),
+    'C12/1': ('Extend<T> for Set collects the batch first and swaps it with self when larger (small-to-large merge)', 'equal-but-distinguishable elements, batch with more distinct elements than the set, overlap'),
+    'C12/2': ('serde visit_map: m.remove(&key) before m.insert(key, value)', 'serde feature, the same logical key twice in the input, distinguishable equal keys'),
+    'C13/1': ('get_disjoint_unchecked_mut compares == only for requests whose size_of_val equals the stored key\'s', 'keys that compare equal but differ in byte length (PathBuf looked up through Path)'),
+    'C13/2': ('overlap pre-check folded into assert!(ks[i+1..].iter().any(|k2| k != k2))', 'three or more keys with a repeated present key and a different key behind it'),
+    'C14/1': ('Map::eq: new first branch for M < N keeps only other.iter().all(..)', 'left operand of larger capacity that is a strict superset of the right one'),
+    'C14/2': ('Set::eq shortcut `if N == 0 || M == 0 { return self.is_empty() }`', 'Set<_, 0> compared with a non-empty set: true'),
+    'C15/1': ('Map::clone as a two-cursor raw pointer loop (src != end), len published afterwards', 'zero-sized K and V: no element cloned, len copied'),
+    'C15/2': ('Set::clone loops debug_assert!(set.map.push(item.clone(), ()))', 'release build: every clone of a non-empty set is empty'),
+    'C16/1': ('Set::from_iter in two stages: insert until full, then only assert membership', 'a non-fused source: next() is called again after it answered None'),
+    'C16/2': ('Extend<&T> = *self = self.iter().copied().chain(iter.copied()).collect()', 'the call unwinds part-way (overflow or panicking source): self is left unchanged'),
+    'C17/1': ('Drop for Map through an unwinding guard that re-drops the panicking slot', 'an element whose Drop panics while a Map/Set/owning iterator is dropped'),
+    'C17/2': ('Debug for IntoIter prints the whole slot array through slice_iter', 'formatting a partially consumed or non-full into_iter(): reads dead slots'),
+    'C18/1': ('insert_i as a sentinel search (pair parked in pairs[len], scan without end test)', 'a key whose == is not reflexive (NaN): the scan runs into dead slots and out of bounds'),
+    'C18/2': ('insert_unchecked: `if self.len >= N { unreachable_unchecked() }` in front of the core', 'full map + present key: inside the contract, now undefined behaviour'),
+    'C20/1': ('Set visit_seq inserts inside debug_assert!(checked_insert(..).is_some())', 'release build with serde: every non-empty Set deserializes as empty'),
+    'C20/2': ('Map visit_map returns Err unless access.size_hint() == Some(m.len()) after the loop', 'a deserializer whose size_hint() is None: every map is rejected'),
+}
+
 def main():
     os.makedirs(DST, exist_ok=True)
     rows = []
@@ -161,6 +202,8 @@ def main():
         rounds.append((NEEDS3, '/tmp/seed/out3', sys.argv[3], 4))
     if len(sys.argv) > 4:
         rounds.append((NEEDS4, '/tmp/seed/out4', sys.argv[4], 6))
+    if len(sys.argv) > 5:
+        rounds.append((NEEDS5, '/tmp/seed/out5', sys.argv[5], 8))
     for needs, OUTD, RESD, off in rounds:
         rows += one_round(needs, OUTD, RESD, off)
     for r in rows:
